@@ -65,7 +65,7 @@ LEAVES = [
 SEQ_ELEMS = [("u16", ["1u16", "2u16", "3u16"]), ("String", ['"a".to_string()', '"b".to_string()']),
              ("i64", ["-1i64", "5i64"]), ("(u8, u16)", ["(1u8, 2u16)"]), ("i8", ["-3i8", "5i8"]),
              ("u32", ["7u32"]), ("bool", ["true"]), ("i16", ["-2i16"]), ("char", ["'x'"]), ("u64", ["9u64"]),
-             ("Option<u8>", ["Some(1u8)"])]
+             ("Option<u8>", ["Some(1u8)"]), ("()", ["()"])]
 SEQ_CONTAINERS = ["Vec<{e}>", "LinkedList<{e}>", "BTreeSet<{e}>", "HashSet<{e}>", "[{e}; 2]", "Streamed<{e}>"]
 PAIR_ELEMS = [("String", "u32", ['("k".to_string(), 1u32)']), ("u8", "String", ['(1u8, "v".to_string())'])]
 PAIR_CONTAINERS = ["Vec<({k}, {v})>", "BTreeMap<{k}, {v}>", "HashMap<{k}, {v}>", "LinkedList<({k}, {v})>"]
@@ -311,11 +311,14 @@ def gen_struct(name, rng, ctx, flavour):
     fam.tags.add(flavour)
     if flavour == "containers":
         rec = Record()
-        for _ in range(rng.randint(1, 3)):
+        for j in range(rng.randint(2, 3)):
             nm = rec.fresh_name(rng)
             r = rng.random()
-            if r < 0.6:
-                e, s = rng.choice(SEQ_ELEMS)
+            if r < 0.6 or j == 0:
+                # element types are dealt out round-robin over the container families so that every
+                # one of them (including i8 and the zero-sized unit) occurs
+                e, s = SEQ_ELEMS[ctx["next_elem"][0] % len(SEQ_ELEMS)]
+                ctx["next_elem"][0] += 1
                 ty = seq_ty(rng.choice(SEQ_CONTAINERS), e, s)
             elif r < 0.85:
                 k, v, s = rng.choice(PAIR_ELEMS)
@@ -546,7 +549,7 @@ def main():
     outp = sys.argv[2]
     rng = random.Random(seed)
     fams = []
-    ctx = dict(nestable=[], nested_used=set())
+    ctx = dict(nestable=[], nested_used=set(), next_elem=[0])
     plan = (["general"] * 10 + ["enum"] * 5 + ["nested"] * 8 + ["containers"] * 8 + ["enum"] * 5 + ["nested"] * 4
             + ["toplevel"] * 4)
     counters = {}
@@ -557,9 +560,9 @@ def main():
         sub = random.Random(rng.getrandbits(64))
         c = dict(ctx)
         if flavour in ("general", "containers", "toplevel"):
-            c = dict(nestable=[], nested_used=ctx["nested_used"])
+            c = dict(nestable=[], nested_used=ctx["nested_used"], next_elem=ctx["next_elem"])
         if flavour == "enum":
-            fam = gen_enum(name, sub, c if counters[flavour] > 5 else dict(nestable=[], nested_used=ctx["nested_used"]))
+            fam = gen_enum(name, sub, c if counters[flavour] > 5 else dict(nestable=[], nested_used=ctx["nested_used"], next_elem=ctx["next_elem"]))
         else:
             fam = gen_struct(name, sub, c, flavour)
         fams.append(fam)
